@@ -46,7 +46,7 @@ def scenario(name: str, umsize: int, alloc: List[int], reqs: List[Dict[str, Any]
         args[0] = [1, 0 if rq["type"] == "K" else 1]
         args[1] = [1, rq["n"]]
         arrs.append({"a": aa, "v": args})
-        arrs.append({"a": ra, "v": [U] * (10 * rq["n"])})
+        arrs.append({"a": ra, "v": [U] * (10 * (rq["n"] + rq.get("room", 0)))})      # room: a results buffer larger than the request needs (create role)
     prog = []
     progs = []
     for b in body:
@@ -79,12 +79,12 @@ def scenario(name: str, umsize: int, alloc: List[int], reqs: List[Dict[str, Any]
     return out
 
 
-def K(role, remote, sock, n, virt):
-    return dict(role=role, remote=remote, sock=sock, type="K", n=n, virt=virt)
+def K(role, remote, sock, n, virt, room=0):
+    return dict(role=role, remote=remote, sock=sock, type="K", n=n, virt=virt, room=room)
 
 
-def M(role, remote, sock, n):
-    return dict(role=role, remote=remote, sock=sock, type="M", n=n, virt=[])
+def M(role, remote, sock, n, room=0):
+    return dict(role=role, remote=remote, sock=sock, type="M", n=n, virt=[], room=room)
 
 
 def scenarios(tier: str, fix: str = "") -> List[Dict[str, Any]]:
@@ -120,6 +120,19 @@ def scenarios(tier: str, fix: str = "") -> List[Dict[str, Any]]:
                       [("nop",), ("nop",), ("sub",), ("req", 0), ("wait", 0)], fix))
     S.append(scenario("recv-measure-in-second-subroutine-early", 1, [], [M("recv", 1, 1, 1), M("create", 1, 0, 1)],
                       [dict(remote=1, sock=1, type="M", n=1)], [("req", 1), ("wait", 1), ("sub",), ("req", 0), ("wait", 0)], fix))
+    # a create request whose results buffer has room for more pairs than it asks for, then a second request with the same key
+    S.append(scenario("roomy-buffer-then-create-same-key", 3, [], [K("create", 1, 0, 1, [0], room=1), K("create", 1, 0, 1, [1])], [],
+                      [("req", 0), ("req", 1), ("wait", 0), ("wait", 1)], fix))
+    S.append(scenario("roomy-measure-buffer-then-create-same-key", 1, [], [M("create", 1, 0, 1, room=2), M("create", 1, 0, 2)], [],
+                      [("req", 0), ("wait", 0), ("req", 1), ("wait", 1)], fix))
+    # responses handed over as qlink-interface 1.0 objects (the conversion path): roles mixed, early arrivals
+    q10 = [scenario("qlink10-roles-mixed-same-key", 2, [], [K("create", 1, 0, 1, [0]), K("recv", 1, 0, 1, [1])],
+                    [dict(remote=1, sock=0, type="K", n=1)], [("req", 0), ("req", 1), ("wait", 0), ("wait", 1)], fix),
+           scenario("qlink10-recv-measure-2-early-and-create", 1, [], [M("recv", 1, 1, 2), M("create", 1, 1, 1)],
+                    [dict(remote=1, sock=1, type="M", n=2)], [("req", 0), ("req", 1), ("wait", 0), ("wait", 1)], fix)]
+    for x in q10:
+        x["q10"] = True
+    S += q10
     if tier == "thorough":
         S.append(scenario("three-requests-3-2-1", 3, [], [K("create", 1, 0, 3, [0, 1, 2]), M("create", 1, 1, 2), M("recv", 1, 0, 1)],
                           [dict(remote=1, sock=0, type="M", n=1)],
